@@ -177,6 +177,78 @@ def fallback_key(conv):
     return [(A, INT_TRY_FULL, "    try:\n        key = " + conv + "\n    except:\n        key = reg\n"), (A, TABLE_TRY, TABLE_TRY_KEY)]
 
 
+# ---- round 6: helper classes / shared tails / local lambdas / tables built by helpers / letter sets -------------------------------
+IMMRANGE_STEP = ("class ImmRange:\n    def __init__(self, lo, hi, step, range_message, step_message):\n        self.lo = lo\n        self.hi = hi\n"
+                 "        self.step = step\n        self.range_message = range_message\n        self.step_message = step_message\n\n"
+                 "    def check(self, imm):\n        if imm < self.lo or imm > self.hi:\n            raise ValueError(self.range_message.format(imm))\n"
+                 "        if imm % self.step != 0:\n            raise ValueError(self.step_message.format(imm))\n\n\n"
+                 "MO4_UIMM6 = ImmRange(\n    0, @HI@, @STEP@,\n    '6-bit MO4 unsigned immediate must be between 0x00 (0) and 0xff (255): {}',\n"
+                 "    '6-bit MO4 unsigned immediate must be a multiple of 4: {}',\n)\n\n\n")
+
+
+def immrange_step(hi=255, step=4):
+    return [(A, CIA_DEF, IMMRANGE_STEP.replace('@HI@', str(hi)).replace('@STEP@', str(step)) + CIA_DEF),
+            (A, CIL_GUARD, "    MO4_UIMM6.check(imm)\n", 'all')]
+
+
+IMM12_GUARD = "    if imm < -0x800 or imm > 0x7ff:\n        raise ValueError('12-bit immediate must be between -0x800 (-2048) and 0x7ff (2047): {}'.format(imm))\n"
+IMMRANGE_PLAIN = ("class ImmRange:\n    def __init__(self, lo, hi, message):\n        self.lo = lo\n        self.hi = hi\n        self.message = message\n\n"
+                  "    def check(self, imm):\n        if imm < self.lo or imm > self.hi:\n            raise ValueError(self.message.format(imm))\n\n\n"
+                  "IMM_12 = ImmRange(-0x800, @HI@, '12-bit immediate must be between -0x800 (-2048) and 0x7ff (2047): {}')\n\n\n")
+
+
+def immrange_plain(hi='0x7ff'):
+    return [(A, RTYPE_DEF, IMMRANGE_PLAIN.replace('@HI@', hi) + RTYPE_DEF), (A, IMM12_GUARD, "    IMM_12.check(imm)\n", 'all')]
+
+
+CLCS_TAIL = ("    imm = imm >> 2\n    imm = c_uint32(imm).value & 0b11111\n\n    imm_6 = (imm >> 4) & 0b1\n    imm_5_3 = (imm >> 1) & 0b111\n"
+             "    imm_2 = imm & 0b1\n\n    code = 0\n    code |= opcode\n    code |= %s << 2\n    code |= imm_6 << 5\n    code |= imm_2 << 6\n"
+             "    code |= rs1 << 7\n    code |= imm_5_3 << 10\n    code |= funct3 << 13\n\n    return code\n")
+CL_DEF = "# c.lw\ndef cl_type"
+
+
+def shared_tail(first='rd_rs2', rs1_pos=7):
+    helper = "def pack_cl_cs(opcode, rd_rs2, rs1, imm, funct3):\n" + (CLCS_TAIL % first).replace('rs1 << 7', 'rs1 << %d' % rs1_pos) + "\n\n"
+    return [(A, CL_DEF, helper + CL_DEF), (A, CLCS_TAIL % 'rd', "    return pack_cl_cs(opcode, rd, rs1, imm, funct3)\n"),
+            (A, CLCS_TAIL % 'rs2', "    return pack_cl_cs(opcode, rs2, rs1, imm, funct3)\n")]
+
+
+CIW_FIELDS = "    imm_9_6 = (imm >> 4) & 0b1111\n    imm_5_4 = (imm >> 2) & 0b11\n    imm_3 = (imm >> 1) & 0b1\n    imm_2 = imm & 0b1\n"
+CIW_LAMBDA = ("    field = lambda shift, width: (imm >> shift) & ((1 << width) - 1)\n\n    imm_9_6 = field(%d, 4)\n    imm_5_4 = field(2, 2)\n"
+              "    imm_3 = field(1, 1)\n    imm_2 = field(0, 1)\n")
+PACK_FIELDS = ("def pack_fields(opcode, *fields):\n    code = 0\n    code |= opcode\n    for value, position in fields:\n        code |= value << position\n"
+               "    return code\n\n\n")
+SEXT_BODY = "    return (value & (sign_bit - 1)) - (value & sign_bit)\n"
+CLUI_WINDOW = ("    if imm >= 0xfffe0 and imm <= 0xfffff:\n        imm = imm - 2**20", "    if imm >= 0xfffe0 and imm <= 0xfffff:\n        imm = sign_extend(imm, 20)")
+REG_LITERAL_HEAD = "REGISTERS = {\n    # ints  # strs    # names    # aliases\n"
+REG_LITERAL_TAIL = "    31: 31, '31': 31, 'x31': 31, 't6':   31,\n}\n"
+BUILD_REGISTERS = ("\n\ndef build_registers():\n    registers = {}\n    for key, number in _REGISTER_ROWS.items():\n        registers[key] = %s\n"
+                   "    return registers\n\n\nREGISTERS = build_registers()\n")
+
+
+def built_table(value='number'):
+    return [(A, REG_LITERAL_HEAD, REG_LITERAL_HEAD.replace('REGISTERS', '_REGISTER_ROWS')), (A, REG_LITERAL_TAIL, REG_LITERAL_TAIL + BUILD_REGISTERS % value)]
+
+
+CIA_TABLE_DEF = ("def cia_imm_bits(imm):\n    imm_9 = (imm >> 5) & 0b1\n    imm_8_7 = (imm >> 3) & 0b11\n    imm_6 = (imm >> 2) & 0b1\n"
+                 "    imm_5 = (imm >> 1) & 0b1\n    imm_4 = imm & 0b1\n    return imm_5 << 2 | imm_8_7 << 3 | %s << 5 | imm_4 << 6 | imm_9 << 12\n\n\n"
+                 "CIA_IMM_BITS = tuple(cia_imm_bits(imm) for imm in range(0b1000000))\n\n\n")
+CIA_TABLE_BODY = ("    imm = imm >> 4\n    imm = c_uint32(imm).value & 0b111111\n\n    code = 0\n    code |= opcode\n    code |= CIA_IMM_BITS[imm]\n"
+                  "    code |= 0b00010 << 7\n    code |= funct3 << 13\n\n    return code")
+
+
+def const_table(expr='imm_6'):
+    return [(A, CIA_DEF, CIA_TABLE_DEF % expr + CIA_DEF), (A, CIA_BODY, CIA_TABLE_BODY)]
+
+
+FENCE_SET = ("def fence_set(value):\n    if type(value) == int:\n        return value\n    flags = value.lower()\n"
+             "    if flags and all(c in 'iorw' for c in flags):\n        return sum(1 << '%s'.index(c) for c in %s)\n    return int(value, base=0)\n\n\n")
+
+
+def letters(order='wroi', over='set(flags)'):
+    return [(A, FENCE_DEF, FENCE_SET % (order, over) + FENCE_DEF), (A, FENCE_COERCE, "    succ = fence_set(succ)\n    pred = fence_set(pred)\n")]
+
+
 PRESERVING = [
     ('p-enc-get-none', ENC, [(A, TABLE_TRY, GET_NONE)]),
     ('p-enc-membership', ENC, [(A, TABLE_TRY, MEMBER)]),
@@ -222,6 +294,16 @@ PRESERVING = [
     ('p-enc-listcomp-lookup', ENC, rlook("[lookup_register(x) for x in (rd, rs1, rs2)]")),
     ('p-enc-tuple-genexp-lookup', ENC, rlook("tuple(lookup_register(x) for x in (rd, rs1, rs2))")),
     ('p-enc-fallback-key', ENC + ['C13'], fallback_key("int(reg, base=0)")),
+    ('p-enc-immrange-class-step', ENC, immrange_step()),
+    ('p-enc-immrange-class', ENC, immrange_plain()),
+    ('p-enc-shared-tail', ENC, shared_tail()),
+    ('p-enc-local-lambda-field', ENC, [(A, CIW_FIELDS, CIW_LAMBDA % 4)]),
+    ('p-enc-pack-fields-varargs', ENC, [(A, RTYPE_DEF, PACK_FIELDS + RTYPE_DEF), (A, RTYPE_BODY, "    return pack_fields(opcode, (rd, 7), (funct3, 12), (rs1, 15), (rs2, 20), (funct7, 25))")]),
+    ('p-enc-sext-xor-form', ENC, [(A,) + CLUI_WINDOW, (A, SEXT_BODY, "    low_bits = value & (2 * sign_bit - 1)\n    return (low_bits ^ sign_bit) - sign_bit\n")]),
+    ('p-enc-table-built-by-helper', ENC + ['C13'], built_table()),
+    ('p-enc-constant-table-index', ENC, const_table()),
+    ('p-enc-fence-letter-sets', ['C01', 'C06'], letters()),
+    ('p-enc-binding-helper', ENC, [(A, ADD_BINDING, "def alu_op(*, funct3, funct7):\n    return partial(r_type, opcode=0b0110011, funct3=funct3, funct7=funct7)\n\n\nADD        = alu_op(funct3=0b000, funct7=0b0000000)")]),
     ('p-enc-log-call', ENC, [(A, ITYPE_GUARD, "    log.debug('i-type immediate %s', imm)\n" + ITYPE_GUARD, 0)]),
 ]
 
@@ -263,10 +345,26 @@ BREAKING = [
     ('c01-map-lookup-order', ['C01'], rlook("map(lookup_register, (rd, rs2, rs1))")),
     ('c01-listcomp-lookup-order', ['C01'], rlook("[lookup_register(x) for x in (rs1, rd, rs2)]")),
     ('c13-fallback-key-base10', ['C13'], fallback_key("int(reg)")),
+    ('c06-immrange-class-step-hi', ['C02', 'C06'], immrange_step(hi=259)),
+    ('c06-immrange-class-step-2', ['C02', 'C06'], immrange_step(step=2)),
+    ('c06-immrange-class-hi', ['C01', 'C06'], immrange_plain('0xfff')),
+    ('c02-shared-tail-first-field', ['C02'], shared_tail(first='rs1')),
+    ('c02-shared-tail-rs1-pos', ['C02'], shared_tail(rs1_pos=8)),
+    ('c02-local-lambda-field-shift', ['C02'], [(A, CIW_FIELDS, CIW_LAMBDA % 3)]),
+    ('c01-pack-fields-varargs-pos', ['C01'], [(A, RTYPE_DEF, PACK_FIELDS + RTYPE_DEF), (A, RTYPE_BODY, "    return pack_fields(opcode, (rd, 7), (funct3, 12), (rs1, 14), (rs2, 20), (funct7, 25))")]),
+    ('c02-sext-xor-form-width', ['C02', 'C06'], [(A, CLUI_WINDOW[0], CLUI_WINDOW[1].replace('sign_extend(imm, 20)', 'sign_extend(imm, 21)')),
+                                                 (A, SEXT_BODY, "    low_bits = value & (2 * sign_bit - 1)\n    return (low_bits ^ sign_bit) - sign_bit\n")]),
+    ('c01-table-built-by-helper-entry', ['C01', 'C13'], built_table("number if key != 't6' else 30")),
+    ('c02-constant-table-entry', ['C02'], const_table('imm_4')),
+    ('c01-fence-letter-order', ['C01'], letters('iorw')),
+    ('c01-fence-letters-repeated', ['C01'], letters('wroi', 'flags')),
+    ('c01-binding-helper-opcode', ['C01'], [(A, ADD_BINDING, "def alu_op(*, funct3, funct7):\n    return partial(r_type, opcode=0b0010011, funct3=funct3, funct7=funct7)\n\n\nADD        = alu_op(funct3=0b000, funct7=0b0000000)")]),
     ('c02-closure-message-value', ['C02', 'C06'], [(A, CNOT, CNOT_MSG.replace('fields[field] == value', 'fields[field] != value'))]),
 ]
 
 UNDECIDED = [
+    # a table entry whose bit is the exclusive-or of two index bits has no single-bit provenance
+    ('u-enc-constant-table-xor', ['C02'], const_table('(imm_6 ^ imm_4)')),
     # successor unguarded below: (pred << 4) | succ with a negative low part is not a sum of fields, no closed form in the domain
     ('u-enc-fence-succ-negative-unguarded', ['C06'], [(A, FENCE_SUCC_GUARD, "    if pred < 0b0000 or succ > 0b1111:\n        raise ValueError('invalid successor value for FENCE instruction: {}'.format(succ))\n")]),
     # overlapping fields added with carries: not a bit-disjoint union, no closed form in the domain
